@@ -20,7 +20,11 @@ from . import c11a
 
 CLASSES = ["valid", "first-byte", "second-byte", "zero-ps0", "zero-ps3", "zero-ps7", "no-sep", "short47", "long49",
            "empty-msg", "ver-garbage", "ver-zero", "pub-ge-n", "pub-short", "pub-long", "all-zero-ct", "ct-one",
-           "pub-empty", "pub-one-byte", "pub-half", "pub-ff", "pub-16k", "pub-64k"]
+           "pub-empty", "pub-one-byte", "pub-half", "pub-ff", "pub-16k", "pub-64k",
+           # version octets next to the right ones: one above the ClientHello's legacy version (what a TLS 1.3 capable
+           # client lists in supported_versions) and TLS 1.3's own.  (The NEGOTIATED version in place of the offered one
+           # is tolerated by design - "buggy IE clients" - and is no class here.)
+           "ver-plus1", "ver-0304"]
 
 
 def craft(cls, n, e, k, client_version, rnd):
@@ -46,6 +50,12 @@ def craft(cls, n, e, k, client_version, rnd):
         msg = pm
     elif cls == "ver-zero":
         pm[0], pm[1] = 0, 0
+        msg = pm
+    elif cls in ("ver-plus1", "ver-0304"):
+        want = {"ver-plus1": (client_version[0], client_version[1] + 1), "ver-0304": (3, 4)}[cls]
+        if tuple(want) == tuple(client_version):
+            want = (3, 5)
+        pm[0], pm[1] = want
         msg = pm
     em = bytearray([0, 2]) + nz(k - 3 - len(msg)) + bytearray([0]) + msg
     if cls == "first-byte":
@@ -97,7 +107,9 @@ def _one(fi, f, cls, seed):
     from tlslite.keyexchange import RSAKeyExchange
     from tlslite.errors import TLSLocalAlert
     rnd = random.Random(repr((seed, "c11b", fi, cls)))
-    sc = Scenario(f, "c11b-%d" % fi)       # same case id for every class: same server randomness
+    # same case id for every class: same server randomness.  Flavours marked c13: the client also enables TLS 1.3 (its
+    # hello lists 3.4 in supported_versions above the legacy version 3.3), the server stays at its version
+    sc = Scenario(f, "c11b-%d" % fi, cextra=dict(maxVersion=(3, 4)) if f.get("c13") else None)
     p = sc.pair
     tr = RecTracer()
     tr.attach(p.s, "s")
@@ -144,6 +156,10 @@ def run_part_b(rep, tier):
         flavs.append(F(ver, "rsa", reqCert="cert"))
         if ver > 0:
             flavs.append(F(ver, "rsa", ticket=True))
+        if ver >= 1:
+            f13 = F(ver, "rsa")
+            f13["c13"] = True
+            flavs.append(f13)
     jobs = []
     for fi, f in enumerate(flavs):
         for cls in CLASSES:
